@@ -97,7 +97,7 @@ fn verify_value(s: &str, v: Version, e: [u32; 4]) -> Result<(), (String, String)
 }
 
 fn run_strings(ctx: &RunCtx, tier: Tier) -> RunOut {
-    let max_len = tier.pick(7usize, 8usize);
+    let max_len = tier.pick(8usize, 9usize);
     // block = first two symbols (or a short string)
     let k = SIGMA.len();
     let b = choose("prefix", k * k + 1);
@@ -276,7 +276,7 @@ fn parts(tier: Tier) -> Vec<PartDef> {
         PartDef::new(
             "strings",
             Cfg::new("C20/strings"),
-            json!({"alphabet": "0 1 9 . + - space a", "max_length": tier.pick(7, 8), "exploration": "every string"}),
+            json!({"alphabet": "0 1 9 . + - space a", "max_length": tier.pick(8, 9), "exploration": "every string"}),
             move |ctx| run_strings(ctx, tier),
         ),
         PartDef::new(
